@@ -59,7 +59,7 @@ PROPS = {
         rule="gen suite: descriptor families (one Go package of 1-4 proto files, optionally a second package holding the message "
              "types) are turned into CodeGeneratorRequests by hand (no protoc), run through protoc-gen-go / protoc-gen-gogo "
              "(module cache) and through protoc-gen-go-drpc BUILT FROM /repo's working tree: the matrix of the 4 method shapes x "
-             "4 protolib settings x json on/off/default, every collision class with near misses, hostile names (keywords, "
+             "4 protolib settings x json on/off/default, every collision class with near misses (incl. split-point families: service/method pairs whose Go names joined by one underscore coincide, which only the _ -> __ doubling keeps apart), several services sharing method names in one file / package, all registered on ONE mux with tagged answers, the oracle rpc-name-fully-qualified (client stub and description carry '/' + proto package + '.' + service + '/' + method, no two methods share a string), hostile names (keywords, "
              "underscores, case-only differences, digits, runtime method names, nested / empty proto packages, go_package "
              "variants incl. ;name and M flags, package and import-path base names drpc/context/errors/proto, source_relative, "
              "multi-file packages, zero services / zero methods, 4x6 methods) and random families (0-4 services x 0-6 methods, "
